@@ -19,6 +19,7 @@ from oracles import c14_run as R, denote
 from gen import grammars
 from c02 import B2
 from c06 import claims_of
+import c14_defs
 
 PID = 'C14'
 NIDS = len(R.IDPOOL)
@@ -142,7 +143,16 @@ def shard(shard_i, nshards, tier, seed):
             def make_replay(vals, name):
                 return {'part': 'weights', 'wspec': w, 'values': TL.jsonable(vals), 'claim': name}
             TL.explore(col, V, body, {'part': 'json_to_weights'}, make_replay, label='json_to_weights')
-            # dense input too
+            # (3b) and back: weights_to_json of that tensor is the nested list of the described dense tensor (concrete sentinels, float() is a C boundary)
+            cvals = [float(1.5 + i) for i in range(n)]
+            for dflt in (w.get('default', 0.), 1.0, '-inf'):
+                w2 = dict(w)
+                w2['default'] = dflt
+                problems = c14_defs.weights_json_roundtrip(fggs, w2, cvals)
+                col.case(('weights_to_json', k, str(dflt)), nontrivial=True, sample={'spec': w2})
+                col.check(not problems)
+                if problems:
+                    col.violation('weights_to_json', {'part': 'weights_to_json'}, {'part': 'weights_to_json', 'wspec': w2, 'cvals': cvals}, note=problems[0])
         # ---- (4) fgg_to_json / json_to_fgg on whole FGGs with concrete sentinel weights (float() is a C boundary)
         rng = random.Random(seed)
         fam = grammars.feature_set(3) + rng.sample(grammars.single_rule_family(3), 40)
